@@ -401,6 +401,10 @@ class UCSReplication(MessagePassingComputation):
             raise ValueError("adding already present computation %s", comp_def)
 
         self.computations[comp_name] = comp_def, footprint
+        # The neighbors of this new computation may be hosted on agents that
+        # are not in the cache yet (and the cache may still hold agents that
+        # only the former computations were related to): recompute it.
+        self._replication_computations_cache = set()
         if self.logger.isEnabledFor(logging.INFO):
             self.logger.info(f"add computation {comp_name} to replicate")
 
